@@ -24,6 +24,7 @@ Act(e) ==
     [] e.a = "loose" -> MergeLoose(e.i, e.n, e.path)
     [] e.a = "both"  -> MergeBoth(e.i, e.j, e.n, e.path)
     [] e.a = "reload" -> Reload(e.i)
+    [] e.a = "run" -> Run(e.i)
 
 Target(e) == IF e.a \in {"gen", "reload"} THEN Len(objs') ELSE e.i
 Fails(e) ==
